@@ -122,7 +122,7 @@ func (rs *ResourceSubscription) Unsubscribe(sub Subscriber) {
 			}
 			delete(rs.subs, sub)
 		}
-		verifNote("cacheUnsub", "name", rs.e.ResourceName, "query", rs.query, "removed", true, "subs", len(rs.subs))
+		verifNote("cacheUnsub", "name", rs.e.ResourceName, "query", rs.query, "removed", true, "subs", len(rs.subs), "cid", verifCID(sub))
 
 		// Directly unregister unsubscribed queries
 		if rs.query != "" && len(rs.subs) == 0 {
